@@ -24,7 +24,7 @@
    them into an alternation (positive) / a sequence (negative) of look-behinds, and the reference
    semantics reads them the same way (Oniguruma's reading). *)
 From FR Require Import Base State Utf8 Utf8Facts Chars Ast Analyze Sem SemSound SemK Det Vm Compile
-                       Machine CompileCorrect RunCorrect EndToEnd Scope ScopeProofs.
+                       Machine Atomize CompileCorrect RunCorrect EndToEnd Scope ScopeProofs.
 From Coq Require Import NArith Lia.
 
 (* Whatever the stack bound, the backtrack limit and the step budget: the VM reports a match only
@@ -49,6 +49,27 @@ Theorem C01_vm_follows_reference :
   | _ => True
   end.
 Proof. exact vm_agrees_with_reference. Qed.
+
+(* EVERY compiled program, whatever it hands to the automata engine: the VM reports exactly the
+   reference search over the ATOMIZED tree (Proofs/Atomize.v: each delegated block wrapped in an
+   atomic group, because a Delegate instruction yields the block's first result only; the block's
+   own semantics, captures included, is the reference semantics - Proofs/DelegStep.v).  What is
+   left between this and the statement above is purely about the reference semantics: that
+   making those blocks atomic does not change the first result of the search (arrow A). *)
+Theorem C01_vm_implements_atomized :
+  forall cs : list (list nat), valid_chars cs ->
+  forall cx : ctx, c_text cx = concat cs -> (N.of_nat (length (concat cs)) < usize_max)%N ->
+  bnd cs (c_pos cx) ->
+  forall (bs : N -> bool) (e : expr) (p : prog),
+  compile bs (wrap e) = inr p -> oke true 0 (wrap e) ->
+  forall (max_st : nat) (lim : option N) (fuelv : nat),
+  match fst (vm_run cx p max_st lim fuelv) with
+  | RMatch sv => dsearch cx bs e = Some (firstn (2 * S (ngroups e)) sv)
+  | RNoMatch => dsearch cx bs e = None
+  | RPanic => False
+  | _ => True
+  end.
+Proof. exact vm_agrees_atomized. Qed.
 
 (* the same with the hypotheses replaced by the executable test the checks run on every generated
    pattern ([in_scope], Model/Scope.v): the evidence reports how many VM-compiled patterns of a run
@@ -121,3 +142,4 @@ Print Assumptions C01_vm_follows_reference.
 Print Assumptions seg_all.
 Print Assumptions C01_reference_forms_agree.
 Print Assumptions C01_in_scope.
+Print Assumptions C01_vm_implements_atomized.
